@@ -151,6 +151,9 @@ func runCase(r *hx.Run, c hx.Case) {
 		} else if i > 1 {
 			ct = "text/x-alt" + fmt.Sprint(i)
 		}
+		if len(p) > 3 && p[3] != "" {
+			ct = string(hx.UnHex(p[3])) // a content type given by the case (parameters of its own, unusual case, ...)
+		}
 		enc := p[0]
 		src := ""
 		if len(p) > 2 {
@@ -281,8 +284,24 @@ func checkLeaves(r *hx.Run, id string, out []byte, want []leafWant, n, e, a int)
 		}
 		switch w.kind {
 		case "part":
-			if l.MediaType != w.ctype || !strings.EqualFold(l.CTParams["charset"], w.charset) {
-				r.Fail(c.ID, "leaf-type", fmt.Sprintf("%s: type %q charset %q", tag, l.MediaType, l.CTParams["charset"]))
+			// the declared type may carry parameters of its own ("text/plain; format=flowed"): the reader must find the
+			// bare type, those parameters and the charset
+			base, own := w.ctype, map[string]string{}
+			if k := strings.IndexByte(base, ';'); k >= 0 {
+				for _, kv := range strings.Split(base[k+1:], ";") {
+					if e := strings.IndexByte(kv, '='); e > 0 {
+						own[strings.ToLower(strings.TrimSpace(kv[:e]))] = strings.Trim(strings.TrimSpace(kv[e+1:]), "\"")
+					}
+				}
+				base = strings.TrimSpace(base[:k])
+			}
+			if !strings.EqualFold(l.MediaType, base) || !strings.EqualFold(l.CTParams["charset"], w.charset) {
+				r.Fail(c.ID, "leaf-type", fmt.Sprintf("%s: type %q charset %q, declared %q", tag, l.MediaType, l.CTParams["charset"], w.ctype))
+			}
+			for k, v := range own {
+				if l.CTParams[k] != v {
+					r.Fail(c.ID, "leaf-type", fmt.Sprintf("%s: parameter %s=%q of the declared type %q reads as %q", tag, k, v, w.ctype, l.CTParams[k]))
+				}
 			}
 		default:
 			wantDisp := "attachment"
@@ -346,7 +365,11 @@ func Run(r *hx.Run, replay []hx.Case) {
 				}
 			}
 			// builder entry point: writer function or string
-			ps = append(ps, enc+":"+hx.Hex(content)+":"+[]string{"", "str", "set"}[(ci/3+i)%3])
+			ctx := ""
+			if (ci+i)%5 == 2 {
+				ctx = hx.Hex([]byte([]string{"text/plain; format=flowed", "text/calendar; method=REQUEST", "Text/Plain", "text/plain; format=flowed; delsp=yes", "application/x-custom+xml"}[(ci/5+i)%5]))
+			}
+			ps = append(ps, enc+":"+hx.Hex(content)+":"+[]string{"", "str", "set"}[(ci/3+i)%3]+":"+ctx)
 		}
 		for i := 0; i < e; i++ {
 			enc := []string{"", "base64", "8bit"}[(ci+i)%3]
